@@ -3,7 +3,7 @@ import re
 import sympy as sp
 
 from ..facts import AnalysisBroken, walk, strip_targs
-from ..pp import pp, skip
+from ..pp import pp, skip, canon_text as CT
 from ..util import (args, assignment, callee, incdec, is_call, obj, strip_not, literal_value, find_var, parameter_name, writes_in,
                     root_of, unwrap_view)
 from ..util import ref_decl_v as ref_decl
@@ -365,7 +365,9 @@ def rule_cache(F, R):
         cond = inline_text(fa, ifs[0]["c"][ifs[0]["r"].index("cond")])
         then_ret = [r for r in rets if any(y is r for y in walk(ifs[0]["c"][ifs[0]["r"].index("then")]))]
         else_ret = [r for r in rets if any(y is r for y in walk(ifs[0]["c"][ifs[0]["r"].index("else")]))]
-        okg = re.fullmatch(r"\(%s\.size<0>\(\) == (m_samples|this->samples\(\)|samples\(\))\.size\(\)\)" % member, cond.replace("this.", "this->")) is not None
+        cnd = cond.replace("this.", "this->").replace("this->", "").replace("samples()", "m_samples")
+        cnd = re.sub(r"(?<![\w.])samples(?![\w(])", "m_samples", cnd)
+        okg = cnd in (CT("(%s.size<0>() == m_samples.size())" % member), "(%s.size<0>() == m_samples.size())" % member, "(m_samples.size() == %s.size<0>())" % member)
         okt = len(then_ret) == 1 and pp(then_ret[0]["c"][0]) == "%s.slice(%s)" % (member, rn)
         R.check(okg and okt, "R-C09-6", inst + " cached path", fa.loc(), "when the cache covers all samples the accessor returns cache.slice(range)",
                 "cached path is `%s -> %s`" % (cond, pp(then_ret[0]["c"][0]) if then_ret else "?"))
